@@ -5,8 +5,12 @@ bridges / immediate dominators lie on every s-t walk (in list order), find_idom 
 safe_paths / safe_sequences / maximal safe sequences are subsequences of every source-sink walk through their
 item or core (hence safe for X), flow-safe paths are in every flow decomposition (loop invariant of the scan +
 excess-flow lemma), zero-fixed edges lie on no walk containing the slot's sequence, the sequences chosen through
-an antichain are pairwise incompatible when they share no parallel inter-SCC edge (partial; the full statement
-for maximal safe sequences is `incompatible_sound_FullStatement`).
+an antichain among the maximal safe sequences are pairwise never contained in one source-sink walk
+(`incompatible_sound`: graph edges distinct, `mapping` an SCC numbering, antichain members pairwise unreachable in
+the expanded condensation — the contract C17 proves for the extraction; both hypotheses are checked on every real
+run by `check_t6_contracts`). The earlier `incompatible_sound_partial` is kept; its hypothesis `NoSharedParallel` is
+not a property of the maximal safe sequences (it fails in about one real run out of eight: a shared inter-SCC edge
+whose member has multiplicity one and lies in the antichain; harmless, the member keeps one sequence).
 Tie (K1): exact-output differential of `find_all_bridges`, `find_path`, `find_idom`,
 `maximal_safe_sequences_via_dominators` (with `Arc_Dominator_Tree`), `safe_paths`, `safe_sequences`,
 `compute_flow_decomp_safe_paths` / `compute_inexact_flow_decomp_safe_paths`,
@@ -43,6 +47,12 @@ THEOREMS = [
     "FP.Props.C06.excess_flow_lemma",
     "FP.Props.C06.excess_flow_safe",
     "FP.Props.C06.incompatible_sound_partial",
+    "FP.Props.C06.maximal_safe_sequences_core_family",
+    "FP.Props.C06.antichain_contract",
+    "FP.Props.C06.antichain_contract_of_extraction",
+    "FP.Props.C06.antichain_hyp_of_contract",
+    "FP.Props.C06.incompatible_sound_family",
+    "FP.Props.C06.incompatible_sound",
 ]
 IMPORTS = ["FP.Props.C06"]
 RULE = ("DAGs (gen.dag, 3-9 nodes, optional additional starts/ends) and digraphs with cycles (gen.digraph_cyc: self-loops, "
@@ -58,7 +68,11 @@ MODEL_SCOPE = ("modelled: find_all_bridges, find_path, find_idom (incl. the stat
                "thread pool not modelled: every worker owns its copies), compute_inexact_flow_decomp_safe_paths with lb=ub "
                "(greedy decomposition paths taken from the real decompose_using_max_bottleneck; the two `assert`s of the scan "
                "are not modelled, they hold in exact arithmetic), _apply_safety_optimizations_fix_zero_edges of the walk "
-               "model, get_longest_incompatible_sequences (SCC numbering and max-weight antichain taken from the real run). "
+               "model, get_longest_incompatible_sequences (SCC numbering and max-weight antichain taken from the real run; "
+               "the theorem `incompatible_sound` needs of them only their contracts: `SccLabelling` — same number iff mutually "
+               "reachable — and `CondAntichain` — members pairwise unreachable in the expanded condensation, whose edge set is "
+               "the image of the graph edges under `_edge_to_condensation_expanded_edge`; C17 `antichain_sound` proves the "
+               "latter for the extraction phase whatever the flow solver returned). "
                "Only well-formed adjacency dicts (all neighbours are keys) and integer flows. Not modelled: "
                "safe_maximal_paths / find_unitig_of_arc / is_core (they call stDAG methods that do not exist), "
                "get_endpoints_of_longest_safe_path_in, the DAG-side zero fixing (never reached with a non-empty list: "
@@ -66,7 +80,11 @@ MODEL_SCOPE = ("modelled: find_all_bridges, find_path, find_idom (incl. the stat
 TRUSTED = ["python list.pop/remove/append, dict insertion order, queue.Queue FIFO order, networkx successor/predecessor "
            "iteration order as transcribed in FP/Model/Safety*.lean",
            "nx.condensation SCC numbering and stDAG.compute_max_edge_antichain enter the `safety.incompatible` tie as data "
-           "captured from the real run (the oracle judges the final result independently of them)"]
+           "captured from the real run (the oracle judges the final result independently of them); their contracts "
+           "(hypotheses `SccLabelling`, `CondAntichain` of `incompatible_sound`) are re-checked by direct search on every "
+           "run (`contract.T6`)",
+           "Std.Data.String.ToNat (`Nat.repr_injective`, shipped with the Lean toolchain) for the injectivity of the "
+           "names `str(c)` / `str(c) + '_expanded'` of the expanded condensation"]
 ASSUMPTIONS = ["X is a collection of edges of the augmented graph (anything else makes the real code raise KeyError)",
                "flow values are integers (the scan is compared in exact arithmetic)"]
 
@@ -759,6 +777,50 @@ def capture_antichain(st):
     return rec
 
 
+def check_t6_contracts(ctx, aug, mapping, antichain, inp):
+    """the two hypotheses of FP.Props.C06.incompatible_sound about the oracle parameters, by direct search:
+    `SccLabelling` (same number iff mutually reachable) and `CondAntichain` (the members handed back by
+    compute_max_edge_antichain are pairwise unreachable in the expanded condensation, rebuilt here from the
+    numbering as the image of the graph edges)"""
+    nodes = aug["nodes"]; edges = [tuple(e) for e in aug["edges"]]
+    out = {}
+    for (u, v) in edges:
+        out.setdefault(u, []).append(v)
+
+    def reach(adj, a):
+        seen = {a}; dq = deque([a])
+        while dq:
+            x = dq.popleft()
+            for y in adj.get(x, []):
+                if y not in seen:
+                    seen.add(y); dq.append(y)
+        return seen
+    lab = {v: c for v, c in mapping}
+    R = {v: reach(out, v) for v in nodes}
+    ctx.rep.cov["contract_checks"] = ctx.rep.cov.get("contract_checks", 0) + 1
+    for u in nodes:
+        for v in nodes:
+            if (lab[u] == lab[v]) != (v in R[u] and u in R[v]):
+                raise common.Infra(f"nx.condensation mapping is not an SCC numbering at {u},{v} on {json.dumps(inp)[:300]}")
+    nontrivial = {lab[u] for (u, v) in edges if lab[u] == lab[v]}
+    cadj = {}
+    for (u, v) in edges:
+        a, b = lab[u], lab[v]
+        ce = ((f"{a}_expanded" if a in nontrivial else str(a)), str(b)) if a != b else (str(a), f"{a}_expanded")
+        cadj.setdefault(ce[0], []).append(ce[1])
+    anti = [tuple(e) for e in antichain]
+    ctx.rep.count("contract.T6", inp, nontrivial=len(set(anti)) >= 2, hist=[f"members={min(len(set(anti)), 4)}"])
+    for a in anti:
+        Ra = reach(cadj, a[1])
+        for b in anti:
+            if a != b and b[0] in Ra:
+                ctx.disagree("contract.T6", inp, {"antichain": [list(x) for x in anti]},
+                             {"comparable": [list(a), list(b)]},
+                             note="hypothesis CondAntichain of incompatible_sound fails: a member reaches another one")
+                return False
+    return True
+
+
 def k1_incompatible(ctx, st, seqs, inp_extra, suite="K1.longest_incompatible"):
     """get_longest_incompatible_sequences on a real stDiGraph; returns the chosen sequences (renamed) or None"""
     ren = renamer(st)
@@ -782,6 +844,7 @@ def k1_incompatible(ctx, st, seqs, inp_extra, suite="K1.longest_incompatible"):
             hist=[f"chosen={min(len(impl['value']['seqs']), 4)}" if impl["status"] == "ok" else "raises"])
     if impl["status"] != "ok":
         return None, inp
+    check_t6_contracts(ctx, aug, mapping, rec.get("antichain", []), inp)
     return impl["value"]["seqs"], inp
 
 
